@@ -42,6 +42,63 @@ negative controls at specification level (run in every check): ClampReadline = F
 domain (DESIGN D4): read() / read(n) with n >= 1 or n < 0 (read(0) excluded), readline(n) any n,
            readlines() without hint, seek(off, whence) with a non-negative target; the return
            value of seek() is not compared (ArMember.seek returns None like Python 2 files).
+
+API surface (notes/API_SURFACE.md) -- every public entry point of lib/debian/arfile.py -> leg or exclusion.
+"all legs" = index replay, LTS replay (edges, walks, K-scaled size stress), process-level replay, recorded
+traces (TLC) and the size-stress leg; variants of one abstract call rotate call by call (VARIANTS), so
+objects are created through one variant and queried through others within one history.
+  ArFile(filename) positional / filename= / (filename, "r") / mode="r" keyword
+                                   all by-name legs, rotating per session (open_arfile)
+  ArFile(fileobj=f) / (None, "r", f) / mode=, fileobj= keywords; f = io.BytesIO or a real file object
+                                   "shared" sessions of all legs; real file objects in the process-level leg
+  ArFile(filename AND fileobj)     out of domain: undocumented combination (filename wins, fileobj ignored)
+  ArFile(mode != "r")              out of domain: "the only supported mode is 'r'" (no index is built)
+  ArFile(encoding=, errors=)       index replay + recorded traces: names beyond ASCII (NFC/NFD twins, singletons,
+                                   ligatures, full-width, case hazards, BOM / ZWJ / NBSP, non-BMP, every UTF-8 trailing
+                                   byte in final position, latin-1 bytes, invalid UTF-8 with the default
+                                   surrogateescape, errors="replace"/"ignore"); expected text = bytes.decode(encoding or
+                                   sys.getfilesystemencoding(), errors or "surrogateescape") as ArFile documents;
+                                   errors="strict" with undecodable bytes: out of domain (raising is the codec's contract)
+  getnames() getmembers() .members iter(ArFile) getmember() ArFile[name]
+                                   check_index (all must agree; identity of the member objects); getmembers/.members/
+                                   iteration also rotate as the way every session obtains its members
+  extractfile(name | member)       check_index: must return a member of that name / None for an absent name; WHICH of
+                                   several equally named members is unspecified (code comment: returns the first,
+                                   unlike getmember) -- reported as an observation, not judged
+  extract() extractall()           out of domain: raise NotImplementedError by design
+  ArMember.name size owner group mtime      check_index + "open" event of every trace (numbers filling their fields,
+                                   zero padded, 2**31, 2**32, 10**11; size: real sizes only up to 1 MiB -- a 10-digit size
+                                   needs a >= 1 GB archive: excluded)
+  ArMember.fmode fname             diagnostic only (drift): not part of the statement
+  ArMember.chmod / context manager (__enter__) / __next__   do not exist in arfile.py (AttributeError): nothing to exercise
+  read() read(n) read(size=n)      all legs (n >= 1 or n < 0; read(0): excluded by D4, executed unjudged after walks)
+  readline() readline(n) readline(None) readline(size=) next() next(iter(m), b"")
+                                   all legs: variants of the abstract call readline
+  readlines() readlines(0) readlines(-1) readlines(None) readlines(sizehint=0)
+                                   all legs: variants of the abstract call readlines
+  readlines(h), h >= 1             recorded traces, judged by TLC (AReadLinesHint): complete lines from the position
+                                   that reach the hint or the end -- io.BytesIO (stops at the hint) and ArMember
+                                   (ignores it) are both admissible; size-stress leg: executed, position re-synchronised
+  list(member) / for line in member         LTS replay (always as the last call; TLC emits the expected outcome "every
+                                   remaining line") and recorded traces (AIter).  GENUINE DIVERGENCE on the unchanged tree:
+                                   ArMember.__iter__ yields only the first remaining line.  It is modelled as the named
+                                   deviation IterSingleLine (spec constant, DESIGN 2.3): tolerated while known_findings.json
+                                   does not list "C06-iter-single-line" as fixed -- an open entry prints KNOWN-FINDING, no
+                                   entry records it under spec_drift / reported_divergence_iter_single_line in the
+                                   evidence; any OTHER outcome of iteration is a violation (mutant c06-iter-chunked)
+  seek(off) seek(off, whence) seek(offset=, whence=) whence 0/1/2
+                                   all legs (non-negative targets; negative targets / whence 3: executed unjudged)
+  tell() seekable()                tell: all legs, after every call on every member; seekable: constant True, not judged
+  close()                          process-level leg (Close action), end of every third by-name session; reading after
+                                   close re-opens the file (by-name) -- exercised by the process-level walks
+  ArMember.from_file()             internal constructor used by the index walk; not called directly
+size stress (notes/SIZE_STRESS.md): K-scaled replay of TLC's cases (cells of 127..65537 bytes, 512 KiB, 1 MiB:
+           members of 8191/8192/8193/65535/65536/65537 bytes and 1 MiB, lines longer than 64 KiB, read(n) at and
+           beyond those sizes -- expectations are TLC's, length-independent by construction); index cases with ~100
+           and ~1000 members (every model member repeated R times; TLC's last-of-name mapped accordingly); traces
+           with 100 members and members up to 257 bytes (TLC scans them; -Xss64m); the size-stress leg (members of
+           0/1/2/4 KiB/8 KiB/64 KiB/128 KiB/1 MiB +-1, arguments around the buffer sizes, many interleaved seeks)
+           is judged against io.BytesIO only.
 """
 import io
 import json
@@ -55,7 +112,7 @@ from lts import LTS, skey, strip
 MANIFEST = dict(
     technique="TLA+ spec (ArMemberRef reference with io.BytesIO semantics + ArMember implementation layer over a flat cell archive) model-checked by TLC; complete reference LTS and index cases replayed on real archives through ArFile(fileobj) and ArFile(filename) with io.BytesIO as second oracle; recorded histories validated by TLC (TraceArMember)",
     text="TLC explores the closed state space of the implementation-level model of arfile.py (archive as one flat cell sequence with headers and pad bytes, index walk, per-member offset/end/cur, one shared or per-member file position) for every archive of up to 2 members with up to 3 data bytes over {newline, other} and checks in every reachable state / on every transition that it refines independent BytesIO-like files (same cells returned, same positions), that no cell outside the member is returned and that the member table is exact, i.e. for interleaved histories of any length over that alphabet. The binding is two-way: every transition of the reference LTS, random interleaved walks and the emitted index cases (duplicate names, empty/odd/even sizes, 0 members) are replayed on real archives in both opening modes with all members' tell() compared after each call, and random histories on larger archives (5 members, 64 bytes, archives written by GNU ar) are validated by TLC against the same actions. A process-level model (ArMemberProc: path contents, ArFile objects, rewrite of a path in place or by rename, close) is model-checked and its complete LTS replayed on real files, and all by-name legs re-use a handful of path names with earlier archives' members left unclosed, so that what an archive opened by name returns cannot silently depend on what the process opened under that name before.",
-    note="Small-scope: model archives have <= 2 members x <= 3 cells (index: <= 3 members); concretization of cells to bytes (1-5 bytes per cell, arbitrary non-newline bytes) is sampled. Domain D4: read(0) excluded, non-negative seek targets, readlines() without hint; seek()'s return value is not compared. Trusted: TLC, the harness' ar writer, io.BytesIO. Members of an archive whose file was replaced underneath them are unspecified (executed, not judged). Spec-level negative controls (ClampReadline/PadOdd/SeekFirst = FALSE, SharedHandlePerPath = TRUE) and corrupted control traces are required to fail in every run.",
+    note="Small-scope: model archives have <= 2 members x <= 3 cells (index: <= 3 members); concretization of cells to bytes (1-5 bytes per cell, arbitrary non-newline bytes) is sampled. Domain D4: read(0) excluded, non-negative seek targets, readlines(h>=1) advisory (any complete-line result reaching the hint or the end); seek()'s return value is not compared. list(member)/for-loops yield only the first line on the unchanged tree: modelled as the named deviation IterSingleLine and reported (see evidence), every other iteration outcome is a violation. Member sizes beyond 257 bytes are judged through K-scaled TLC cases and io.BytesIO, not scanned by TLC. Trusted: TLC, the harness' ar writer, io.BytesIO. Members of an archive whose file was replaced underneath them are unspecified (executed, not judged). Spec-level negative controls (ClampReadline/PadOdd/SeekFirst = FALSE, SharedHandlePerPath = TRUE) and corrupted control traces are required to fail in every run.",
     design="5 (C06)")
 
 AR_BIN = "/usr/bin/ar"
@@ -1098,7 +1155,9 @@ def proc_leg(ctx, quick, rng):
     per_op = {}
     n = 0
     versions = None
-    todo = [(paths[e["_f"]] + [e], "transition") for e in g.edges]
+    # only reads are judged: every read edge is replayed behind the shortest history leading to its state
+    # (open / rewrite / close edges are covered as steps of those histories and of the walks)
+    todo = [(paths[e["_f"]] + [e], "transition") for e in g.edges if e["op"] == "read"]
     nw = 60 if quick else 1500
     for w in range(nw):
         todo.append((g.walk(rng, g.init, 12, weight=lambda x: 1 if x["op"] == "open" else 2), "walk"))
@@ -1198,6 +1257,8 @@ def run(ctx):
             if quick:
                 design["states"] += ctx.tlc_must_hold("ArMember", "MC_ArMember_quick_byname.cfg", workers=4).distinct
             negative_control(ctx, "MC_ArMember_quick.cfg", "ClampReadline", ("Refines", "SameResult"))
+            # finding control: __iter__ as written refines the reference only with the named deviation
+            negative_control(ctx, "MC_ArMember_quick.cfg", "IterSingleLine", ("Refines", "SameResult"))
             if not quick:
                 negative_control(ctx, "MC_ArMember_quick.cfg", "PadOdd", ("IndexExact",))
                 negative_control(ctx, "MC_ArMember_quick.cfg", "SeekFirst", ("Refines", "SameResult", "Isolation"))
